@@ -28,11 +28,15 @@ theorem sites_agree_new :
 theorem sites_agree_old :
     Gen.whOldOneOctetLimit = 256 ∧ Gen.whOldTwoOctetLimit = 65536 ∧
     Gen.hlOldOneOctetLimit = Gen.whOldOneOctetLimit ∧ Gen.hlOldTwoOctetLimit = Gen.whOldTwoOctetLimit ∧
-    Gen.phwOldOneOctetLimit = Gen.whOldOneOctetLimit ∧ Gen.phwOldTwoOctetLimit = Gen.whOldTwoOctetLimit ∧
-    Gen.phtOldOneOctetLimit = Gen.whOldOneOctetLimit ∧ Gen.phtOldTwoOctetLimit = Gen.whOldTwoOctetLimit ∧
-    -- the length TYPE chosen by `old_fixed_type` (header octet) and the number of length OCTETS written
-    -- (`to_writer`) switch at the same lengths
-    Gen.oftOneOctetLimit = Gen.phtOldOneOctetLimit ∧ Gen.oftTwoOctetLimit = Gen.phtOldTwoOctetLimit := by
+    -- `PacketHeader::to_writer` writes as many length octets as the length TYPE in the header octet
+    -- announces (1, 2, 4 for types 0, 1, 2: RFC 9580 4.2.2), and `write_len` counts the same
+    Gen.phtOldType0Octets = 1 ∧ Gen.phtOldType1Octets = 2 ∧ Gen.phtOldType2Octets = 4 ∧
+    Gen.phwOldType0Len = 1 + Gen.phtOldType0Octets ∧ Gen.phwOldType1Len = 1 + Gen.phtOldType1Octets ∧
+    Gen.phwOldType2Len = 1 + Gen.phtOldType2Octets ∧
+    -- the length type chosen by `old_fixed_type` for a new header can hold the length, and switches
+    -- where `write_header` switches
+    Gen.oftOneOctetLimit = 256 ^ Gen.phtOldType0Octets ∧ Gen.oftTwoOctetLimit = 256 ^ Gen.phtOldType1Octets ∧
+    Gen.oftOneOctetLimit = Gen.whOldOneOctetLimit ∧ Gen.oftTwoOctetLimit = Gen.whOldTwoOctetLimit := by
   decide
 
 theorem partial_limits_rfc :
